@@ -676,7 +676,7 @@ def translate_selection(name, text, alias, atoms, allowed_names, classes):
     if len(parts) != 3 or end < 0:
         raise ExtractionBreak('%s: selection %s is not of the form conditional_t<COND, A, B>' % (name, alias))
     cond = parts[0]
-    for rx, rep in atoms:
+    for rx, rep in list(atoms) + [(r'\btrue\b', '1'), (r'\bfalse\b', '0')]:
         cond = re.sub(rx, rep, cond)
     if re.search(r'[^\s!&|()<>=\w]', cond) or [w for w in re.findall(r'[A-Za-z_]\w*', cond) if w not in allowed_names]:
         raise ExtractionBreak('%s: the condition of selection %s has a term outside the translated vocabulary: %s' % (name, alias, ' '.join(parts[0].split())))
